@@ -4,6 +4,7 @@
    Types: 0 bool, 1 char, 2 int, 3 unsigned, 4 long, 5 unsigned long, 6 long long, 7 unsigned long long, 8.. enums (LP64). *)
 Require Import V.Lib.Base V.Lib.Dec V.Gen.Consts_C16.
 Require Import V.C16.Model V.C16.Spec V.C16.ProofsBasic V.C16.ProofsRT V.C16.ProofsAcc V.C16.ProofsEnum V.C16.ProofsComp.
+Require Import V.C16.ProofsCompElems V.C16.ProofsCompAcc.
 Local Open Scope Z_scope.
 
 (* ================= (1) round trip, ALL values of every integer type ================= *)
@@ -99,7 +100,7 @@ Proof. exact parse_enum_sound. Qed.
 Print Assumptions c16_enum_accepts_only.
 
 (* ================= (4) pairs and lists ================= *)
-(* element types: the six integer types and bool (elem_ok); char and enum elements are exercised by the correspondence run only *)
+(* element types: the six integer types and bool (elem_ok); char and enum elements: section (5) *)
 Theorem c16_pair_roundtrip : forall ta tb a b, elem_ok ta a -> elem_ok tb b ->
   cast_pair ta tb false (cut0 (print_pair ta tb a b)) = Some (a, b).
 Proof. exact pair_roundtrip_elems. Qed.
@@ -135,6 +136,127 @@ Print Assumptions c16_pair_roundtrip_char_paren_refuted.
 Theorem c16_list_roundtrip_char_bracket_refuted : exists l, l <> [] /\ cast_list 1 false (cut0 (print_list 1 l)) <> (true, l).
 Proof. exists [91]. split; [discriminate | vm_compute; discriminate]. Qed.
 Print Assumptions c16_list_roundtrip_char_bracket_refuted.
+
+(* ================= (5) pairs and lists over ALL element types ================= *)
+(* elem_ok_all ty v: the six integer types (every value), bool, char 1..255, every constant of the nine enumerations
+   (enum_const ty v: ty is the code of a generated class and EnumClass::isValid(v)).
+   Exclusions, exactly those of the known findings: char NUL (not in elem_ok_all), the char '(' as FIRST component of a
+   pair, the char '[' as FIRST element of a list.  ',' ')' ']' '\' and '(' / '[' in any other position are covered. *)
+Theorem c16_enum_roundtrip_string_cast : forall ty v e, enum_const ty v -> cast_scalar ty e (cut0 (print_scalar ty v)) = Some v.
+Proof. exact cast_roundtrip_enum. Qed.
+Print Assumptions c16_enum_roundtrip_string_cast.
+
+Theorem c16_pair_roundtrip_all : forall ta tb a b, elem_ok_all ta a -> elem_ok_all tb b -> ~ (ta = 1 /\ a = pair_open) ->
+  cast_pair ta tb false (cut0 (print_pair ta tb a b)) = Some (a, b).
+Proof. exact pair_roundtrip_all. Qed.
+Print Assumptions c16_pair_roundtrip_all.
+
+Theorem c16_list_roundtrip_all : forall ty l, l <> [] -> Forall (elem_ok_all ty) l -> ~ (ty = 1 /\ hd 0 l = seq_open) ->
+  cast_list ty false (cut0 (print_list ty l)) = (true, l).
+Proof. exact list_roundtrip_all. Qed.
+Print Assumptions c16_list_roundtrip_all.
+
+(* generic forms: the printed forms are non-empty C strings that read back in front of ',' or the end; only the FIRST printed
+   character of the pair / list must not be the opening bracket *)
+Theorem c16_pair_roundtrip_generic : forall ta tb a b, rt_ok ta a -> rt_ok tb b ->
+  cstr (print_scalar ta a) -> cstr (print_scalar tb b) -> hd 0 (print_scalar ta a) <> pair_open ->
+  cast_pair ta tb false (cut0 (print_pair ta tb a b)) = Some (a, b).
+Proof. exact pair_roundtrip_sharp. Qed.
+Print Assumptions c16_pair_roundtrip_generic.
+
+Theorem c16_list_roundtrip_generic_sharp : forall ty l, l <> [] -> Forall (rt_ok ty) l -> Forall (cstr_el ty) l ->
+  hd 0 (print_scalar ty (hd 0 l)) <> seq_open ->
+  cast_list ty false (cut0 (print_list ty l)) = (true, l).
+Proof. exact list_roundtrip_sharp. Qed.
+Print Assumptions c16_list_roundtrip_generic_sharp.
+
+(* the three exclusions are necessary - not for one witness only (the ..._refuted theorems above) but for EVERY value of
+   that shape: KNOWN FINDINGS pair-open-paren-char, list-open-bracket-char, char-nul-no-roundtrip *)
+Theorem c16_pair_char_paren_never : forall tb b, cstr_el tb b ->
+  cast_pair 1 tb false (cut0 (print_pair 1 tb pair_open b)) <> Some (pair_open, b).
+Proof. exact pair_char_paren_never. Qed.
+Print Assumptions c16_pair_char_paren_never.
+
+Theorem c16_list_char_bracket_never : forall l, l <> [] -> Forall (fun v => 1 <= v <= 255) l -> hd 0 l = seq_open ->
+  snd (cast_list 1 false (cut0 (print_list 1 l))) <> l.
+Proof. exact list_char_bracket_never. Qed.
+Print Assumptions c16_list_char_bracket_never.
+
+Theorem c16_list_char_nul_never : forall l, Forall (fun c => 0 <= c <= 255) l -> In 0 l ->
+  snd (cast_list 1 false (cut0 (print_list 1 l))) <> l.
+Proof. exact list_char_nul_never. Qed.
+Print Assumptions c16_list_char_nul_never.
+
+(* ================= (6) accepts-only for every scalar type, pairs and lists ================= *)
+(* denotes ty txt v (C16/ProofsCompAcc.v): txt is non-empty and
+     bool: txt is a word of the table with value v;   char: txt = [v] or backslash + escape letter for v;
+     integer types: v within the limits of the type and txt a documented keyword for v or a numeral denoting exactly v;
+     enums: v is a constant of the class and txt is its key, or a numeral / imax / imin with value v.
+   For EVERY string x (no hypothesis on x): *)
+Theorem c16_scalar_accepts_only : forall ty e x, p_ok (parse_scalar ty e x) = true ->
+  (0 < p_len (parse_scalar ty e x) <= length x)%nat /\
+  denotes ty (firstn (p_len (parse_scalar ty e x)) x) (p_val (parse_scalar ty e x)).
+Proof. exact scalar_sound. Qed.
+Print Assumptions c16_scalar_accepts_only.
+
+(* xconvert(pair): token count 0 leaves the target untouched and reports position 0; otherwise the input decomposes into
+   optional parentheses, the text of the first component, and either  ',' + text of the second + ')' (count 2, end position
+   right behind) or nothing / a swallowed ',' before ')' (count 1: second component untouched, the WHOLE string consumed);
+   each delivered component is the denotation of its own text; the end position is inside the string. *)
+Theorem c16_pair_accepts_only : forall ta tb ia ib e x sum a b k, parse_pair ta tb ia ib e x = (sum, a, b, k) ->
+  (k <= length x)%nat /\
+  ((sum = 0 /\ a = ia /\ b = ib /\ k = O) \/
+   exists op cl ta_txt, brackets op cl /\ denotes ta ta_txt a /\
+     ((sum = 2 /\ exists tb_txt rest, denotes tb tb_txt b /\ x = op ++ ta_txt ++ [def_sep] ++ tb_txt ++ cl ++ rest /\
+                                      k = length (op ++ ta_txt ++ [def_sep] ++ tb_txt ++ cl)) \/
+      (sum = 1 /\ b = ib /\ k = length x /\
+         (x = op ++ ta_txt ++ cl \/ (op = [pair_open] /\ x = op ++ ta_txt ++ [def_sep] ++ cl))))).
+Proof. exact pair_sound. Qed.
+Print Assumptions c16_pair_accepts_only.
+
+(* convert_seq / xconvert(vector): whatever is delivered, the input decomposes into an optional '[', the element texts joined
+   by ',', possibly one swallowed ',' (only if something follows), and the rest; every delivered element is the denotation of
+   its own text; the end position is right behind the texts (behind ']' if bracketed) or 0 if the bracket is not closed. *)
+Theorem c16_list_accepts_only : forall ty e x els k f, parse_list ty e x = (els, k, f) ->
+  (k <= length x)%nat /\ exists txts tsep, Forall2 (denotes ty) txts els /\
+  (tsep = [] \/ (tsep = [def_sep] /\ txts <> [])) /\
+  ((exists rest, x = join def_sep txts ++ tsep ++ rest /\ (tsep = [] \/ rest <> []) /\ head_is seq_open x = false /\
+                 k = length (join def_sep txts ++ tsep)) \/
+   (exists rest, x = [seq_open] ++ join def_sep txts ++ tsep ++ [seq_close] ++ rest /\
+                 k = length ([seq_open] ++ join def_sep txts ++ tsep ++ [seq_close])) \/
+   (exists rest, x = [seq_open] ++ join def_sep txts ++ tsep ++ rest /\ head_is seq_close rest = false /\ k = O)).
+Proof. exact list_sound. Qed.
+Print Assumptions c16_list_accepts_only.
+
+(* whole-string conversion (string_cast): the string IS the bracketed / unbracketed sequence of element texts *)
+Theorem c16_pair_whole_string_shape : forall ta tb e x a b, cast_pair ta tb e x = Some (a, b) ->
+  exists op cl ta_txt, brackets op cl /\ denotes ta ta_txt a /\
+    ((exists tb_txt, denotes tb tb_txt b /\ x = op ++ ta_txt ++ [def_sep] ++ tb_txt ++ cl) \/
+     (b = init_val tb /\ (x = op ++ ta_txt ++ cl \/ x = [pair_open] ++ ta_txt ++ [def_sep] ++ [pair_close]))).
+Proof. exact cast_pair_sound. Qed.
+Print Assumptions c16_pair_whole_string_shape.
+
+Theorem c16_list_whole_string_shape : forall ty e x els, cast_list ty e x = (true, els) ->
+  els <> [] /\ exists txts, Forall2 (denotes ty) txts els /\
+    (x = join def_sep txts \/
+     exists tsep, (tsep = [] \/ tsep = [def_sep]) /\ x = [seq_open] ++ join def_sep txts ++ tsep ++ [seq_close]).
+Proof. exact cast_list_sound. Qed.
+Print Assumptions c16_list_whole_string_shape.
+
+(* range: on a string of bytes 1..255 every delivered element lies in the range of its type
+   (bool 0/1, char 0..255, integer limits, enum: isValid) *)
+Theorem c16_denotes_in_range : forall ty txt v, Forall is_byte txt -> denotes ty txt v -> in_range ty v.
+Proof. exact denotes_in_range. Qed.
+Print Assumptions c16_denotes_in_range.
+
+Theorem c16_pair_elems_in_range : forall ta tb ia ib e x sum a b k, Forall is_byte x -> parse_pair ta tb ia ib e x = (sum, a, b, k) ->
+  (1 <= sum -> in_range ta a) /\ (2 <= sum -> in_range tb b) /\ (sum = 0 \/ sum = 1 \/ sum = 2).
+Proof. exact pair_elems_in_range. Qed.
+Print Assumptions c16_pair_elems_in_range.
+
+Theorem c16_list_elems_in_range : forall ty e x els k f, Forall is_byte x -> parse_list ty e x = (els, k, f) -> Forall (in_range ty) els.
+Proof. exact list_elems_in_range. Qed.
+Print Assumptions c16_list_elems_in_range.
 
 (* ================= non-vacuity ================= *)
 Example nv_ranges : (ty_min 2 = -2147483648 /\ ty_max 2 = 2147483647) /\ (ty_min 3 = 0 /\ ty_max 3 = 4294967295) /\
@@ -179,5 +301,37 @@ Qed.
 Example nv_enum_classes : length enum_classes = 9%nat /\
   map (fun t => length (ec_entries (ec_of t))) enum_classes = [2; 3; 4; 6; 11; 7; 3; 4; 4]%nat.
 Proof. vm_compute. split; reflexivity. Qed.
+(* char / enum elements: Heuristic_t::Init (type 11, value 3) and Tuple_t::Bracket (14, -3) are constants; a pair of a char and
+   an enum constant, a list of chars with ',' '[' ')' and backslash in non-first positions, a list of enum constants *)
+Example nv_elem_ok_all : enum_const 11 3 /\ enum_const 14 (-3) /\ elem_ok_all 1 44 /\
+  print_pair 1 11 97 3 = [97; 44; 73; 110; 105; 116] /\
+  cast_pair 1 11 false (print_pair 1 11 97 3) = Some (97, 3) /\
+  cast_pair 14 1 false (print_pair 14 1 (-3) 40) = Some (-3, 40) /\
+  cast_list 1 false (print_list 1 [97; 91; 44; 41; 92; 116]) = (true, [97; 91; 44; 41; 92; 116]) /\
+  cast_list 10 false (print_list 10 [0; 3; 1]) = (true, [0; 3; 1]).
+Proof.
+  split; [split; [lia | eexists; split; [vm_compute; reflexivity | vm_compute; reflexivity]]|].
+  split; [split; [lia | eexists; split; [vm_compute; reflexivity | vm_compute; reflexivity]]|].
+  split; [right; left; lia|]. vm_compute. repeat split.
+Qed.
+(* NUL inside a pair: pair<int,char>(5, 0) prints as "5,\0" and does not read back; pair<char,int>(0, 5) neither *)
+Example nv_pair_nul : cast_pair 2 1 false (cut0 (print_pair 2 1 5 0)) = None /\ cast_pair 1 2 false (cut0 (print_pair 1 2 0 5)) = None.
+Proof. vm_compute. split; reflexivity. Qed.
+(* accepted composites: "[1,0x10,imax]" as vector<int>, "(on,-1)" as pair<bool,unsigned>, lenient "(1,)" (one token), and the
+   hypotheses of the shape theorems are satisfiable; "[1,2" delivers two elements but reports position 0 *)
+Example nv_composite_accepts :
+  cast_list 2 false [91; 49; 44; 48; 120; 49; 48; 44; 105; 109; 97; 120; 93] = (true, [1; 16; 2147483647]) /\
+  cast_pair 0 3 false [40; 111; 110; 44; 45; 49; 41] = Some (1, 4294967295) /\
+  parse_pair 2 2 7 8 false [40; 49; 44; 41] = (1, 1, 8, 4%nat) /\
+  parse_list 2 false [91; 49; 44; 50] = ([1; 2], O, false) /\
+  denotes 2 [48; 120; 49; 48] 16 /\ denotes 0 [111; 110] 1 /\ denotes 1 [92; 116] 9.
+Proof.
+  split; [vm_compute; reflexivity|]. split; [vm_compute; reflexivity|]. split; [vm_compute; reflexivity|].
+  split; [vm_compute; reflexivity|].
+  split; [split; [discriminate|]; right; right; left; split; [lia|]; split; [vm_compute; split; discriminate|]; right;
+          refine (num_hex 120 [49; 48] _ _ _); [now left | discriminate | repeat constructor]|].
+  split; [split; [discriminate|]; left; split; [reflexivity|]; exists 2%nat, true, 2%nat; split; [cbn; tauto | reflexivity]|].
+  split; [discriminate|]. right; left. split; [reflexivity|]. right. exists 116. split; reflexivity.
+Qed.
 Example c16_smoke : run_case [0; 2; 0; 3; 32; 45; 53] = [1; -5; 3; 0; 1; -5].
 Proof. vm_compute. reflexivity. Qed.
